@@ -25,6 +25,7 @@ from liquid2.builtin import StringLiteral
 from liquid2.builtin import parse_keyword_arguments
 from liquid2.builtin.content import ContentNode
 from liquid2.builtin.output import OutputNode
+from liquid2.exceptions import LiquidTypeError
 from liquid2.exceptions import TranslationKeyError
 from liquid2.exceptions import TranslationSyntaxError
 from liquid2.exceptions import TranslationValueError
@@ -133,10 +134,19 @@ class TranslateNode(Node, TranslatableTag):
 
     def resolve_translations(self, context: RenderContext) -> Translations:
         """Return a translations object from the current render context."""
-        return cast(
-            Translations,
-            context.resolve(self.translations_var, self.default_translations),
+        translations = context.resolve(
+            self.translations_var, self.default_translations
         )
+        if not all(
+            callable(getattr(translations, name, None))
+            for name in ("gettext", "ngettext", "pgettext", "npgettext")
+        ):
+            raise LiquidTypeError(
+                f"expected a translations object at {self.translations_var!r}, "
+                f"found {translations.__class__.__name__}",
+                token=self.token,
+            )
+        return cast(Translations, translations)
 
     def resolve_count(
         self,
